@@ -1,1 +1,4 @@
 import AdaptiveProofs.Lemmas.Seq
+import AdaptiveProofs.Props.C05
+import AdaptiveProofs.Props.C06
+import AdaptiveProofs.Props.C19
